@@ -655,6 +655,9 @@ class Engine:
         self.handles = {}
         self.handle_seq = 0
         self.fresh_seq = 0
+        self.decided = {}  # term id -> choice already implied by the path condition
+        self.concretized = {}
+        self._keep = []  # keep decided terms alive so ids stay unique
         for a in assumptions:
             self.assume(a)
 
@@ -696,6 +699,16 @@ class Engine:
             return True
         if z3.is_false(t):
             return False
+        tid = t.get_id()
+        hit = self.decided.get(tid)
+        if hit is not None:
+            return hit
+        r = self._decide(t)
+        self.decided[tid] = r
+        self._keep.append(t)
+        return r
+
+    def _decide(self, t) -> bool:
         if self.pos < len(self.prefix):
             kind, choice = self.prefix[self.pos]
             if kind != "b":
@@ -739,6 +752,15 @@ class Engine:
         if z3.is_bv_value(t):
             v = t.as_signed_long()
             return v
+        tid = t.get_id()
+        if tid in self.concretized:
+            return self.concretized[tid]
+        r = self._concretize(t)
+        self.concretized[tid] = r
+        self._keep.append(t)
+        return r
+
+    def _concretize(self, t) -> int:
         if self.pos < len(self.prefix):
             kind, choice = self.prefix[self.pos]
             if kind != "v":
@@ -791,7 +813,7 @@ class Engine:
         return SymInt.var(f"{prefix}!{self.fresh_seq}", bits)
 
 
-def explore(fn, *, max_paths=20000, timeout_ms=30000, assumptions=(), stats: Stats | None = None):
+def explore(fn, *, max_paths=20000, timeout_ms=30000, assumptions=(), stats: Stats | None = None, deadline_s=None):
     """Run ``fn()`` under the engine over all feasible paths.
 
     Returns (list[PathResult], Stats).  ``fn`` must be deterministic and create
@@ -802,10 +824,13 @@ def explore(fn, *, max_paths=20000, timeout_ms=30000, assumptions=(), stats: Sta
         stats = Stats()
     work = [[]]
     results = []
+    t_start = time.time()
     while work:
         prefix = work.pop()
         if len(results) >= max_paths:
             raise PathLimit(f"more than {max_paths} paths")
+        if deadline_s is not None and time.time() - t_start > deadline_s:
+            raise PathLimit(f"exploration exceeded its {deadline_s}s budget after {len(results)} paths")
         eng = Engine(prefix, stats, timeout_ms=timeout_ms, assumptions=assumptions)
         pr = PathResult()
         prev = _ENGINE
